@@ -729,6 +729,9 @@ func (vfs *MemFS) RemoveAll(path string) error {
 }
 
 func (vfs *MemFS) removeAll(parent *dirNode) error {
+	avfs.VerifBatchBegin()
+	defer avfs.VerifBatchEnd()
+
 	parent.mu.Lock()
 	defer parent.mu.Unlock()
 
